@@ -12,12 +12,14 @@ import (
 	"fmt"
 	"os"
 	"runtime"
+	"runtime/debug"
 	"runtime/pprof"
 	"sort"
 	"strings"
 	"sync"
 	"time"
 
+	"github.com/metrico/qryn/reader/logql/logql_parser"
 	"github.com/metrico/qryn/reader/logql/logql_transpiler_v2"
 	"github.com/metrico/qryn/reader/logql/logql_transpiler_v2/shared"
 	sql "github.com/metrico/qryn/reader/utils/sql_select"
@@ -46,6 +48,8 @@ type outcome struct {
 	explained []string
 }
 
+var scriptCache sync.Map
+
 // renderSQL runs the real parser + planner.  Planner/parser errors are returned as planErr (not violations).
 func renderSQL(text string, p Params, cluster bool) (sqlText string, planErr error, harnessErr error) {
 	defer func() {
@@ -53,7 +57,27 @@ func renderSQL(text string, p Params, cluster bool) (sqlText string, planErr err
 			planErr = fmt.Errorf("planner panic: %v", r)
 		}
 	}()
-	chain, err := logql_transpiler_v2.Transpile(text)
+	// Transpile = logql_parser.Parse + Plan.  The parse result is cached per query text (participle rebuilds its
+	// grammar on every Parse, which dominated the run); Plan runs afresh for every case because planner objects
+	// are mutated by Process (D13).  For the pure-SQL shapes of this grammar Plan does not modify the script.
+	var script *logql_parser.LogQLScript
+	if c, ok := scriptCache.Load(text); ok {
+		switch x := c.(type) {
+		case *logql_parser.LogQLScript:
+			script = x
+		case error:
+			return "", x, nil
+		}
+	} else {
+		sc, err := logql_parser.Parse(text)
+		if err != nil {
+			scriptCache.Store(text, err)
+			return "", err, nil
+		}
+		scriptCache.Store(text, sc)
+		script = sc
+	}
+	chain, err := logql_transpiler_v2.Plan(script)
 	if err != nil {
 		return "", err, nil
 	}
@@ -339,6 +363,7 @@ func main() {
 			defer pprof.StopCPUProfile()
 		}
 	}
+	debug.SetGCPercent(400)
 	start, end := T0, T0+10000
 	uni := universalDB(start, end)
 	dbs := map[string]*Database{uni.Name: uni}
